@@ -14,6 +14,7 @@ import (
 
 	chain "github.com/comdex-official/comdex/app"
 	assettypes "github.com/comdex-official/comdex/x/asset/types"
+	esmtypes "github.com/comdex-official/comdex/x/esm/types"
 	"github.com/comdex-official/comdex/x/lend"
 	lendtypes "github.com/comdex-official/comdex/x/lend/types"
 	liqV2types "github.com/comdex-official/comdex/x/liquidationsV2/types"
@@ -41,6 +42,7 @@ type c08Fix struct {
 	users    []sdk.AccAddress
 	userNo   map[string]int
 	denoms   []string // all tracked denoms in a fixed order
+	otherApp uint64   // a second app (not the lend app)
 }
 
 func c08Dec(s string) sdk.Dec { return sdk.MustNewDecFromStr(s) }
@@ -69,6 +71,7 @@ func c08Setup(t *testing.T, tr *tracer) (*c08Fix, sdk.Context) {
 		}
 	}
 	other := addAppRecord(t, a, ctx, "cswap")
+	f.otherApp = other
 	decs := []int64{1000000, 1000000, 100000000, 1000000}
 	for i := 0; i < 4; i++ {
 		d := fmt.Sprintf("uasset%d", i+1)
@@ -290,6 +293,20 @@ func c08Project(f *c08Fix, ctx sdk.Context, tr *tracer) {
 	}
 	tr.p("pr%s", sb.String())
 	tr.p("ct %d %d", k.GetUserLendIDCounter(ctx), k.GetUserBorrowIDCounter(ctx))
+	// ESM kill switch per app, pool ids in the depreciation records (in record order)
+	var kl []uint64
+	for _, ap := range []uint64{f.app, f.otherApp} {
+		if ks, found := f.a.EsmKeeper.GetKillSwitchData(ctx, ap); found && ks.BreakerEnable {
+			kl = append(kl, ap)
+		}
+	}
+	var dp []uint64
+	if recs, found := k.GetPoolDepreciateRecords(ctx); found {
+		for _, r := range recs.IndividualPoolDepreciate {
+			dp = append(dp, r.PoolID)
+		}
+	}
+	tr.p("fl %s %s", c08Ints(kl), c08Ints(dp))
 	tr.p("end")
 }
 
@@ -533,8 +550,15 @@ func TestC08(t *testing.T) {
 			}
 			// 100..105: hand-over of a position to a liquidation auction; 106..115: a bid on the auction of a handed-over
 			// position; 116..121 RepayWithdraw; 122..126 FundModuleAccounts; 127..129 FundReserveAccounts
-			kind := cr.intn(130)
+			// 130, 131: esm MsgKillSwitch; 132: pool depreciation (governance)
+			kind := cr.intn(133)
 			warm := oi < 5 // the first messages of a history supply liquidity
+			if ks, found := a.EsmKeeper.GetKillSwitchData(ctx, f.app); found && ks.BreakerEnable && cr.chance(35) {
+				kind = 130 // the switch is on: most likely switched off again soon
+			}
+			if kind == 132 && (oi < nops/2 || cr.chance(60)) {
+				kind = 40
+			}
 			var flagged []lendtypes.BorrowAsset
 			for _, b := range borrows {
 				if b.IsLiquidated {
@@ -608,6 +632,44 @@ func TestC08(t *testing.T) {
 				amt := c08FundAmount(cr)
 				msg = lendtypes.NewMsgFundModuleAccounts(poolID, asset, us, sdk.NewCoin(denom, sdk.NewIntFromBigInt(amt)))
 				line = fmt.Sprintf("fundmod %d %d %d %d %s", un, poolID, asset, f.denomID[denom], amt)
+			case kind >= 130 && kind < 132: // esm MsgKillSwitch by an admin (sometimes by somebody else)
+				admins := a.EsmKeeper.AdminParam(ctx)
+				from, isAdmin := us, false
+				if len(admins) > 0 && !cr.chance(12) {
+					from, isAdmin = admins[0], true
+				}
+				app := f.app
+				if cr.chance(12) {
+					app = []uint64{f.otherApp, 99}[cr.intn(2)]
+				}
+				cur, _ := a.EsmKeeper.GetKillSwitchData(ctx, app)
+				on := !cur.BreakerEnable
+				if cr.chance(15) {
+					on = !on
+				}
+				msg = &esmtypes.MsgKillRequest{From: from, KillSwitchParams: &esmtypes.KillSwitchParams{AppId: app, BreakerEnable: on}}
+				line = fmt.Sprintf("kill %s %d %s", b2s(isAdmin), app, b2s(on))
+			case kind == 132: // governance: AddPoolDepreciateProposal for one pool (the handler runs like a message: all or nothing)
+				poolID := f.pools[cr.intn(2)]
+				if cr.chance(10) {
+					poolID = 3
+				}
+				cc, write := ctx.CacheContext()
+				var err error
+				class := "ok"
+				if pn, _ := safely(func() {
+					err = k.HandlePoolDepreciateProposal(cc, &lendtypes.AddPoolDepreciateProposal{Title: "t", Description: "d",
+						PoolDepreciate: lendtypes.PoolDepreciate{IndividualPoolDepreciate: []lendtypes.IndividualPoolDepreciate{{PoolID: poolID}}}})
+				}); pn {
+					class = "panic"
+				} else if err != nil {
+					class = "err"
+				} else {
+					write()
+				}
+				tr.p("op %d depreciate %d %s", dt, poolID, class)
+				c08Project(f, ctx, tr)
+				continue
 			case kind >= 127: // MsgFundReserveAccounts
 				asset := f.assets[cr.intn(4)]
 				if cr.chance(8) {
